@@ -44,23 +44,12 @@ Definition read_after_sync_statement (l : reach) : Prop :=
     (f_backend e = BRead -> exists rev, l = ReachOk rev /\ f_fetch e = true /\ f_set e = Some rev)
     /\ (fetch_succeeds l = false -> f_resp e = RespError /\ f_backend e = BNone /\ f_set e = None).
 
-Lemma read_after_sync_except_garbage : forall l, l <> Garbage200 -> read_after_sync_statement l.
+Lemma read_after_sync : forall l, read_after_sync_statement l.
 Proof.
-  intros l Hl k proxy Hk. destruct l as [rev| | |]; try congruence;
+  intros l k proxy Hk. destruct l as [rev| | |];
     destruct k; try discriminate Hk; cbn; split; intros H; try discriminate H;
     try (exists rev; repeat split; reflexivity); repeat split; reflexivity.
 Qed.
-
-Lemma read_after_sync_refuted : exists l, ~ read_after_sync_statement l.
-Proof.
-  exists Garbage200. intros H. specialize (H ERangeList false eq_refl). cbn in H.
-  destruct H as [_ H]. specialize (H eq_refl). destruct H as [H _]. discriminate H.
-Qed.
-
-(* what the garbage answer does: the follower adopts revision 0 and reads *)
-Lemma garbage_reads_at_zero : forall k proxy, is_read k = true ->
-  outcome_of (roles_effects k Follower proxy Garbage200) = ServeLocalAt 0.
-Proof. intros k proxy Hk; destruct k; try discriminate Hk; reflexivity. Qed.
 
 (* leader: no fetch, no set, ever *)
 Lemma leader_never_syncs : forall k proxy l,
@@ -262,9 +251,7 @@ Proof. exists w_set_race. vm_compute. reflexivity. Qed.
 Definition c18_valid (c : c18_case) : Prop := True.
 
 Lemma c18_role_sound : forall k r proxy l obs,
-  c18_check (RoleCase k r proxy l obs) = true ->
-  c18_oracle (RoleCase k r proxy l obs) = None
-  \/ (c18_oracle (RoleCase k r proxy l obs) = Some F_garbage_status /\ l = Garbage200 /\ r = Follower /\ is_read k = true).
+  c18_check (RoleCase k r proxy l obs) = true -> c18_oracle (RoleCase k r proxy l obs) = None.
 Proof.
   intros k r proxy l obs H. cbn in H.
   assert (E : role_row_ok k r l obs = role_row_ok k r l (roles_effects k r proxy l)).
@@ -280,7 +267,7 @@ Proof.
       f_equal. apply N.eqb_eq. assumption. }
     reflexivity. }
   cbn. rewrite E. clear E H.
-  destruct r, k, proxy, l; unfold role_row_ok, set_verdict, role_row_rest; cbn; rewrite ?N.eqb_refl; cbn; auto; right; repeat split; reflexivity.
+  destruct r, k, proxy, l; unfold role_row_ok, set_verdict, role_row_rest; cbn; rewrite ?N.eqb_refl; reflexivity.
 Qed.
 
 Lemma c18_sched_sound : forall l0 f0 ls a b sets,
@@ -328,13 +315,9 @@ Proof.
   - rewrite (Hfa eq_refl), (Hfb eq_refl) in Ef. discriminate.
 Qed.
 
-(* overlapping reads: a failed fetch leaves the other read alone; a garbage answer drags it to revision 0 *)
-Lemma overlap_failed_fetch : forall r l, fetch_succeeds l = false -> l <> Garbage200 ->
-  overlap_model r l = (RespError, [r], r).
-Proof. intros r l Hf Hl. destruct l; try discriminate Hf; try congruence; reflexivity. Qed.
-
-Lemma overlap_garbage : forall r, overlap_model r Garbage200 = (RespOk, [r; 0], 0).
-Proof. reflexivity. Qed.
+(* overlapping reads: a failed fetch (incl. an unparsable answer) leaves the other read alone *)
+Lemma overlap_failed_fetch : forall r l, fetch_succeeds l = false -> overlap_model r l = (RespError, [r], r).
+Proof. intros r l Hf. destruct l; try discriminate Hf; reflexivity. Qed.
 
 Lemma list_eqb_N_eq l1 l2 : list_eqb N.eqb l1 l2 = true -> l1 = l2.
 Proof.
@@ -345,20 +328,20 @@ Qed.
 Lemma c18_overlap_sound : forall r l b_resp sets a_scan a_nonempty,
   (0 < r)%N -> (forall v, l = ReachOk v -> (r <= v)%N) ->
   c18_check (OverlapCase r l b_resp sets a_scan a_nonempty) = true ->
-  c18_oracle (OverlapCase r l b_resp sets a_scan a_nonempty) = None
-  \/ (c18_oracle (OverlapCase r l b_resp sets a_scan a_nonempty) = Some F_garbage_status /\ l = Garbage200).
+  c18_oracle (OverlapCase r l b_resp sets a_scan a_nonempty) = None.
 Proof.
   intros r l b_resp sets a_scan a_nonempty Hr Hv H. unfold c18_check in H.
   destruct l as [v| | |]; unfold overlap_model, sync_read in H; unfold c18_oracle;
     repeat (apply andb_true_iff in H; destruct H as [H ?]);
     apply N.eqb_eq in H1; subst a_scan; apply Bool.eqb_prop in H0; subst a_nonempty;
     apply list_eqb_N_eq in H2; subst sets.
-  - left. specialize (Hv v eq_refl).
+  - specialize (Hv v eq_refl).
     assert (E1 : (r <=? v)%N = true) by (apply N.leb_le; lia).
     assert (E2 : (0 <? v)%N = true) by (apply N.ltb_lt; lia). rewrite E1, E2. reflexivity.
-  - left. destruct b_resp; try discriminate. cbn. rewrite N.eqb_refl, N.leb_refl.
+  - destruct b_resp; try discriminate. cbn. rewrite N.eqb_refl, N.leb_refl.
     assert (E2 : (0 <? r)%N = true) by (apply N.ltb_lt; lia). rewrite E2. reflexivity.
-  - left. destruct b_resp; try discriminate. cbn. rewrite N.eqb_refl, N.leb_refl.
+  - destruct b_resp; try discriminate. cbn. rewrite N.eqb_refl, N.leb_refl.
     assert (E2 : (0 <? r)%N = true) by (apply N.ltb_lt; lia). rewrite E2. reflexivity.
-  - right. split; [|reflexivity]. cbn. destruct r; reflexivity.
+  - destruct b_resp; try discriminate. cbn. rewrite N.eqb_refl, N.leb_refl.
+    assert (E2 : (0 <? r)%N = true) by (apply N.ltb_lt; lia). rewrite E2. reflexivity.
 Qed.
